@@ -65,11 +65,14 @@ func NewObject(payload interface{}) (*Object, error) {
 
 // IsEmpty returns true if no payload has been set yet.
 func (d *Object) IsEmpty() bool {
-	return d.payload == nil
+	return d == nil || d.payload == nil
 }
 
 // Instance returns a prepared version of the document's content.
 func (d *Object) Instance() interface{} {
+	if d == nil {
+		return nil
+	}
 	return d.payload
 }
 
@@ -77,6 +80,9 @@ func (d *Object) Instance() interface{} {
 // document payload. If the object implements the Identifiable
 // interface, it will also ensure the UUID is set.
 func (d *Object) Calculate() error {
+	if d == nil {
+		return nil
+	}
 	if ident, ok := d.payload.(Identifiable); ok {
 		id := ident.GetUUID()
 		if id.IsZero() {
